@@ -340,6 +340,10 @@ async def one_run(loop, ctx, cmdset, mode, order=None):
         info["wire"] = len(rig.wire_errors)
         info["closed"] = [s.name for s in rig.sessions if s.writer.closed and not s.name.startswith(("Z", "O")) and s.name not in rig.bye_sessions]
         info["log"] = [x[2][:160] for x in rig.log_records[-3:]]
+        for s_ in rig.sessions:
+            s_.pump()
+        info["view_errors"] = [e for s_ in rig.sessions for e in s_.view_errors]
+        info["view_events"] = rig.counts.get("view_monitor_events", 0)
         return results, fs, info
     finally:
         try:
